@@ -8,7 +8,7 @@ from vlib import sfgen
 PROP = "C07"
 LEVEL = "proof"
 COQ_DIRS = ["C07"]
-COQ_TARGETS = ["Gen/GaussCirc.vo", "Base/GaussTac.vo", "C07/GaussPhysical.vo"]
+COQ_TARGETS = ["Gen/GaussCirc.vo", "Base/GaussTac.vo", "Base/PhaseSpace.vo", "C07/GaussPhysical.vo", "C07/Symplectic.vo"]
 PROPERTIES_FILE = "Properties/C07.v"
 ALLOWED_AXIOMS = set()
 TRANSLATORS = [gc.translate_gausscirc]
